@@ -135,6 +135,14 @@ func init() {
 	}
 	reg(N+"StaleRead", func(p *Path, _ *frame, a []Value) Value { return read(p, a, 1, 2) })
 	reg(N+"SyncRead", func(p *Path, _ *frame, a []Value) Value { return read(p, a, 2, 3) })
+	reg(dbPkg+".IsTempError", func(p *Path, _ *frame, a []Value) Value {
+		for _, n := range []string{"ErrSystemBusy", "ErrShardClosed", "ErrShardNotInitialized", "ErrShardNotReady", "ErrTimeout", "ErrClosed", "ErrAborted"} {
+			if p.errorsIs(a[0], p.sentinelError(dbPkg+"."+n), 0) {
+				return p.ctx.T
+			}
+		}
+		return p.ctx.F
+	})
 	reg(N+"HasNodeInfo", func(p *Path, _ *frame, a []Value) Value { return p.ctx.F })
 	reg(N+"StartOnDiskReplica", func(p *Path, _ *frame, a []Value) Value {
 		nh := p.nhOf(a[0])
